@@ -63,6 +63,17 @@ def build_cases(tier):
     add(_prod(style=["kitty"], identity=kid, method=meth, mix=[False, True], blend=[True], size=few_sizes,
               cell=[[2, 3]], alpha=[None, "default", 0.5, "#ff00aa"], src=[PAT], z=[0, -5], compress=[0, 4],
               via=["format"]))
+    # chunk-boundary geometries, uncompressed: one strip / the whole image is exactly 3072 raw bytes = 4096 base64
+    # characters = one full chunk (and one column less / more, and exactly two chunks).  At cell size (8,16):
+    # RGB strip of 8 columns = 8*8*16*3, RGBA strip of 6 columns = 6*8*16*4; WHOLE transmits the source
+    # resolution when the source is not larger than the render: 32x32 RGB, 32x24 RGBA (41x25 / 31x33: +-)
+    add(_prod(style=["kitty"], identity=kid, method=["lines"], mix=[False, True], blend=[True, False],
+              size=[[w, h] for w in (5, 6, 7, 8, 9, 16) for h in (1, 2)], cell=[[8, 16]], alpha=[None, "default"],
+              src=[PAT], z=[0], compress=[0]))
+    add(_prod(style=["kitty"], identity=kid, method=["whole"], mix=[False, True], blend=[True, False],
+              size=[[4, 2], [5, 2], [4, 3]], cell=[[8, 16]], alpha=[None, "default"],
+              src=[["pat", 32, 32, "RGB"], ["pat", 32, 24, "RGBA"], ["pat", 41, 25, "RGB"], ["pat", 31, 33, "RGB"],
+                   ["pat", 64, 16, "RGB"]], z=[0], compress=[0]))
     add(_prod(style=["kitty"], identity=kid, method=[None], size=few_sizes, cell=CELLS, alpha=["default"],
               src=SOURCES, via=["str"]))
     # ---------------------------------------------------------------- iterm2
